@@ -13,6 +13,11 @@
 //	       row names, computed here with Blake2b-256 over the bytes the row's term
 //	       stands for.  The era's UtxoValidateScriptDataHash and every entry of
 //	       its UtxoValidationRules are run; the expected verdict is the row's.
+//	       Rows with p2 = true are executed on a transaction flagged is_valid =
+//	       false, the way flag.ndjson says the era carries the flag (third
+//	       element of the envelope false; Dijkstra: the flag the block decoder
+//	       sets for a member of invalid_transactions); their keys end in
+//	       ":p2invalid".
 package main
 
 import (
@@ -65,6 +70,13 @@ type ruleRow struct {
 	Eras        []string `json:"eras"`
 	Accept      bool     `json:"accept"`
 	Reason      string   `json:"reason"`
+	P2          bool     `json:"p2"`      // the transaction is flagged is_valid = false
+	Binding     string   `json:"binding"` // both | rejectOnly (a flagged transaction without redeemers: see Admissible in the spec)
+}
+
+type flagRow struct {
+	Era     string `json:"era"`
+	Carrier string `json:"carrier"` // envelope | blockSet
 }
 
 func lkey(L []int) string {
@@ -653,7 +665,9 @@ func buildTx(s *txShape) []byte {
 	return append(b.b, w.b...) // body followed by witness set; envelope() adds the rest
 }
 
-func envelope(era *eraDef, bodyAndWits []byte, three bool) []byte {
+// envelope wraps body and witness set; isValid is the third element of the
+// four-element form (the three-element form of Dijkstra has none).
+func envelope(era *eraDef, bodyAndWits []byte, three, isValid bool) []byte {
 	t := &enc{}
 	if three {
 		t.array(3)
@@ -663,8 +677,25 @@ func envelope(era *eraDef, bodyAndWits []byte, three bool) []byte {
 	}
 	t.array(4)
 	t.raw(bodyAndWits)
-	t.b = append(t.b, 0xf5, 0xf6)
+	if isValid {
+		t.b = append(t.b, 0xf5, 0xf6)
+	} else {
+		t.b = append(t.b, 0xf4, 0xf6)
+	}
 	return t.b
+}
+
+// flag makes the decoded transaction a phase-2 invalid one for the eras whose
+// envelope cannot say so: a Dijkstra transaction is flagged by its block's
+// invalid_transactions set, from which the block decoder assigns TxIsValid
+// (dijkstra.go: txs[idx].TxIsValid = !invalidTxMap[idx]); the same assignment
+// is made here on the transaction decoded from its own bytes.
+func flagByBlockSet(tx common.Transaction) bool {
+	if d, ok := tx.(*dijkstra.DijkstraTransaction); ok {
+		d.TxIsValid = false
+		return true
+	}
+	return false
 }
 
 // ---------------------------------------------------------------- rules
@@ -693,7 +724,7 @@ func isHashErr(err error) (string, bool) {
 	return "", false
 }
 
-func rulesMode(rep *vh.Reporter, rng *rand.Rand, eraName, viewsPath, rulesPath string) {
+func rulesMode(rep *vh.Reporter, rng *rand.Rand, eraName, viewsPath, rulesPath, flagPath string) {
 	var era *eraDef
 	for _, e := range eras() {
 		if e.name == eraName {
@@ -716,9 +747,32 @@ func rulesMode(rep *vh.Reporter, rng *rand.Rand, eraName, viewsPath, rulesPath s
 		rep.Dead("rules %s: %v", rulesPath, err)
 	}
 	rk := func(r *ruleRow) string {
-		return fmt.Sprintf("L=%s:shape=%s:red=%d:dat=%s:decl=%s", lkey(r.L), r.Shape, b2i(r.Red), r.Datf, r.Decl)
+		k := fmt.Sprintf("L=%s:shape=%s:red=%d:dat=%s:decl=%s", lkey(r.L), r.Shape, b2i(r.Red), r.Datf, r.Decl)
+		if r.P2 {
+			k += ":p2invalid"
+		}
+		return k
 	}
-	sort.SliceStable(rows, func(i, j int) bool { return rk(&rows[i]) < rk(&rows[j]) })
+	// the unflagged table first, in its old order (the same transactions as before
+	// the flag became a dimension), then the flagged rows
+	sort.SliceStable(rows, func(i, j int) bool {
+		if rows[i].P2 != rows[j].P2 {
+			return !rows[i].P2
+		}
+		return rk(&rows[i]) < rk(&rows[j])
+	})
+	carrier := ""
+	if flagPath != "" {
+		frows, err := vh.ReadNDJSON[flagRow](flagPath)
+		if err != nil {
+			rep.Dead("flag %s: %v", flagPath, err)
+		}
+		for _, f := range frows {
+			if f.Era == era.name {
+				carrier = f.Carrier
+			}
+		}
+	}
 
 	o := &enc{}
 	o.array(2)
@@ -742,6 +796,7 @@ func rulesMode(rep *vh.Reporter, rng *rand.Rand, eraName, viewsPath, rulesPath s
 	reasons := map[string]int{}
 	sampled := map[string]bool{}
 	ran := 0
+	flaggedRan, flaggedReject, rejectOnlyOver := 0, 0, 0
 	for ri := range rows {
 		r := &rows[ri]
 		in := false
@@ -865,11 +920,23 @@ func rulesMode(rep *vh.Reporter, rng *rand.Rand, eraName, viewsPath, rulesPath s
 			rep.Dead("row %s: declared hash equals the right hash = %v, model accept = %v", rk(r), bytes.Equal(s.declared, right), r.Accept)
 		}
 		three := era.name == "dijkstra" && ri%2 == 0
-		raw := envelope(era, buildTx(s), three)
 		key := fmt.Sprintf("rule:era=%s:%s", era.name, rk(r))
+		if r.P2 && carrier != "envelope" && carrier != "blockSet" {
+			rep.Dead("%s: the specification does not say how a %s transaction carries is_valid = false (carrier %q)", key, era.name, carrier)
+		}
+		if r.Binding != "both" && r.Binding != "rejectOnly" {
+			rep.Dead("%s: unknown binding %q", key, r.Binding)
+		}
+		raw := envelope(era, buildTx(s), three, !(r.P2 && carrier == "envelope"))
 		tx, err := era.decodeTx(raw)
 		if err != nil {
 			rep.Dead("%s: cannot decode the transaction built for %s: %v (%x)", era.name, key, err, raw)
+		}
+		if r.P2 && carrier == "blockSet" && !flagByBlockSet(tx) {
+			rep.Dead("%s: cannot flag a %T the way the block decoder does", key, tx)
+		}
+		if tx.IsValid() == r.P2 {
+			rep.Dead("%s: the transaction built for p2 = %v has IsValid() = %v (%x)", key, r.P2, tx.IsValid(), raw)
 		}
 		// the decoded transaction must say what the row says
 		w := tx.Witnesses()
@@ -894,7 +961,11 @@ func rulesMode(rep *vh.Reporter, rng *rand.Rand, eraName, viewsPath, rulesPath s
 		pp := era.pparams(toUintMap(cm, nil), era.name == "dijkstra" && ri%4 < 2)
 		replay := map[string]any{"row": *r, "era": era.name, "tx_cbor": fmt.Sprintf("%x", raw), "cost_models": cm,
 			"redeemer_form": s.redForm, "datum_form": s.datForm, "datum_field": fmt.Sprintf("%x", s.datField), "tagged_sets": s.tagged,
-			"right_hash": fmt.Sprintf("%x", right), "declared_hash": fmt.Sprintf("%x", s.declared)}
+			"right_hash": fmt.Sprintf("%x", right), "declared_hash": fmt.Sprintf("%x", s.declared),
+			"is_valid": !r.P2}
+		if r.P2 {
+			replay["flag_carrier"] = carrier
+		}
 		var fnErr error
 		listReject := ""
 		listNamedErr := ""
@@ -935,12 +1006,28 @@ func rulesMode(rep *vh.Reporter, rng *rand.Rand, eraName, viewsPath, rulesPath s
 				era.name, fnErr, r.Reason), replay)
 			continue
 		}
-		reasons[r.Reason+"->"+cls]++
+		rsn := r.Reason
+		if r.P2 {
+			rsn = "p2invalid " + rsn
+			flaggedRan++
+			if !r.Accept {
+				flaggedReject++
+			}
+		}
+		reasons[rsn+"->"+cls]++
+		listAccept := listReject == "" && listNamedErr == ""
+		if r.Binding == "rejectOnly" && r.Accept {
+			// a flagged transaction without redeemers is rejected by the flag rule whatever
+			// this rule says: rejecting it here as well admits nothing the table forbids
+			if !fnAccept || !listAccept {
+				rejectOnlyOver++
+			}
+			continue
+		}
 		if fnAccept != r.Accept {
 			rep.Disagree(key+":at=func", fmt.Sprintf("%s.UtxoValidateScriptDataHash %s (%v); the specification says %s (%s) [redeemers %s, datums %s]",
 				era.name, verdict(fnAccept), fnErr, verdict(r.Accept), r.Reason, s.redForm, s.datForm), replay)
 		}
-		listAccept := listReject == "" && listNamedErr == ""
 		if !listed && !r.Accept && listAccept {
 			rep.Disagree(key+":at=list:unlisted", fmt.Sprintf("%s.UtxoValidationRules has no UtxoValidateScriptDataHash entry and accepts; the specification says reject (%s)",
 				era.name, r.Reason), replay)
@@ -949,7 +1036,11 @@ func rulesMode(rep *vh.Reporter, rng *rand.Rand, eraName, viewsPath, rulesPath s
 				era.name, verdict(listAccept), listReject, listNamedErr, verdict(r.Accept), r.Reason), replay)
 		}
 		sk := r.Decl
-		if !sampled[sk] && len(sampled) < 3 && len(r.L) >= 1 && (r.Decl == "right" || r.Decl == "byNumber" || r.Decl == "reencRed") && r.Red {
+		budget := 3
+		if r.P2 {
+			sk, budget = "p2invalid", 4 // one flagged sample on top of the three unflagged ones
+		}
+		if !sampled[sk] && len(sampled) < budget && len(r.L) >= 1 && (r.Decl == "right" || r.Decl == "byNumber" || r.Decl == "reencRed") && r.Red {
 			sampled[sk] = true
 			rep.Sample(map[string]any{"case": key, "spec": verdict(r.Accept) + " (" + r.Reason + ")", "code_func": fmt.Sprint(fnErr),
 				"code_list": listReject, "tx": fmt.Sprintf("%x", raw)})
@@ -960,6 +1051,8 @@ func rulesMode(rep *vh.Reporter, rng *rand.Rand, eraName, viewsPath, rulesPath s
 	}
 	rep.Extra["rule_rows_by_spec_reason_and_code_error "+era.name] = reasons
 	rep.Extra["script_data_hash_rule_listed "+era.name] = listed
+	rep.Extra["flagged_rows "+era.name] = map[string]any{"carrier": carrier, "executed": flaggedRan, "specification_rejects": flaggedReject,
+		"not_judged: rule rejects a flagged transaction without redeemers that the table accepts": rejectOnlyOver}
 }
 
 func verdict(a bool) string {
@@ -988,7 +1081,7 @@ func b2i(b bool) int {
 func main() {
 	rep := vh.NewReporter()
 	if len(os.Args) < 3 {
-		rep.Dead("usage: c31 views <views.ndjson> | rules <era> <views.ndjson> <rules.ndjson>")
+		rep.Dead("usage: c31 views <views.ndjson> | rules <era> <views.ndjson> <rules.ndjson> [flag.ndjson]")
 	}
 	rng := rand.New(rand.NewSource(vh.Seed()*15485863 + int64(len(os.Args[1])*31+len(os.Args[2]))))
 	switch os.Args[1] {
@@ -996,9 +1089,13 @@ func main() {
 		viewsMode(rep, rng, os.Args[2])
 	case "rules":
 		if len(os.Args) < 5 {
-			rep.Dead("usage: c31 rules <era> <views.ndjson> <rules.ndjson>")
+			rep.Dead("usage: c31 rules <era> <views.ndjson> <rules.ndjson> [flag.ndjson]")
 		}
-		rulesMode(rep, rng, os.Args[2], os.Args[3], os.Args[4])
+		flagPath := ""
+		if len(os.Args) > 5 {
+			flagPath = os.Args[5]
+		}
+		rulesMode(rep, rng, os.Args[2], os.Args[3], os.Args[4], flagPath)
 	default:
 		rep.Dead("unknown mode %q", os.Args[1])
 	}
